@@ -359,7 +359,7 @@ func (g *c44Gen) packet(svcIAs []addr.IA) ([]byte, string) {
 
 // outerFor chooses the outer IP destination relative to the packet's SCION
 // destination host.
-func (g *c44Gen) outerFor(raw []byte, disp bool) (netip.Addr, string) {
+func (g *c44Gen) outerFor(raw []byte, disp bool, svc map[shimref.SvcKey]netip.AddrPort) (netip.Addr, string) {
 	if !disp && g.rng.IntN(4) != 0 {
 		return netip.Addr{}, "none" // what Serve passes when the dispatcher function is off
 	}
@@ -367,6 +367,9 @@ func (g *c44Gen) outerFor(raw []byte, disp bool) (netip.Addr, string) {
 	if p, err := shimref.Parse(raw); err == nil {
 		if a, ok := netip.AddrFromSlice(p.RawDst); ok {
 			dst = a
+		}
+		if e := shimref.Derive(p, svc); len(e.Allowed) > 0 {
+			dst = e.Allowed[0].Addr()
 		}
 	}
 	switch x := g.rng.IntN(10); {
@@ -467,6 +470,7 @@ func checkC44(r *mon.Run) {
 		}
 		return out
 	}
+	table := map[string]int{}
 	for si := 0; si < nServers; si++ {
 		disp := g.rng.IntN(4) != 0
 		s, closeFn := c44NewServer(r, g, disp, g.rng.IntN(5) == 0)
@@ -476,7 +480,7 @@ func checkC44(r *mon.Run) {
 		var seq []string
 		for pi := 0; pi < perServer; pi++ {
 			raw, label := g.packet(s.ias)
-			outer, rel := g.outerFor(raw, disp)
+			outer, rel := g.outerFor(raw, disp, s.svc)
 			prev := netip.AddrPortFrom(g.host(), uint16(30000+g.rng.IntN(200)))
 			in := shimref.Input{Raw: raw, Outer: outer, PrevHop: prev, IsDispatcher: disp, Svc: s.svc}
 			fed := append([]byte(nil), raw...) // the shim may write into its input
@@ -511,6 +515,7 @@ func checkC44(r *mon.Run) {
 			kind, outcome, fs := shimref.Judge(in, next, out)
 			r.Class(fmt.Sprintf("%s|%s|disp=%v|outer=%s", kind, outcome, disp, rel))
 			r.Event(outcome)
+			table[kind+"|"+outcome]++
 			if outcome != "dropped" && outcome != "dropped-deliverable" {
 				r.Event(outcome + "/" + label)
 			}
@@ -523,6 +528,7 @@ func checkC44(r *mon.Run) {
 		}
 		closeFn()
 	}
+	r.Extra("packets_by_kind_and_outcome", table)
 	c44Sockets(r, g)
 	r.Require(int64(nServers*perServer/2), 80, "forwarded", "replied", "dropped", "socket_delivered", "socket_not_reflected", "socket_replied")
 	r.RequireClasses(
